@@ -89,26 +89,6 @@ theorem janitor_prune_progress (cfg : Cfg) :
       | cons h' r' =>
         exact ih (h' :: r') _ rfl (by simp) (by simpa using hlen) hd hf
 
-theorem janitorReachesProgress_mono (cfg : Cfg) :
-    ∀ (n m : Nat) (s : State), n ≤ m → janitorReachesProgress cfg s n = true →
-      janitorReachesProgress cfg s m = true := by
-  intro n
-  induction n with
-  | zero => intro m s _ h; simp [janitorReachesProgress] at h
-  | succ n ih =>
-    intro m s hnm h
-    cases m with
-    | zero => omega
-    | succ m =>
-      unfold janitorReachesProgress at h ⊢
-      split at h
-      · simp at h
-      · rename_i s' hs
-        simp only [Bool.or_eq_true] at h ⊢
-        rcases h with h | h
-        · exact Or.inl h
-        · exact Or.inr (ih m s' (by omega) h)
-
 /-- when the reader and all hashers are done and the event is set, the janitor (if still running)
     gets to a progress step by itself -/
 theorem janitor_progress {cfg : Cfg} {s : State} (h3 : InvB3 cfg s) (hd : AllDead s)
